@@ -331,6 +331,7 @@ func runRFaultCase(c *Case, env *Env) *Result {
 	res.Events += R
 
 	try := func(f *ReadFault, label string) bool {
+		Heartbeat()
 		r := runRFaultOnce(ws, rc.Prog, f, R+8, label)
 		res.SubRuns++
 		res.Events += r.reads
